@@ -53,6 +53,7 @@ RowClauses(e, nExpected) ==
   \cup (IF ~e.sumfv THEN {"C03:sum-volFrac<=1"} ELSE {})
   \cup (IF ~e.comprange THEN {"C03:composition-in-[0,1]"} ELSE {})
   \cup (IF e.Tsched # "eq" THEN {"C13:T=schedule(t)"} ELSE {})
+  \cup (IF ~e.xeqfresh THEN {"C13:recorded-equilibrium-composition-fresh"} ELSE {})
   \cup (IF \E i \in 1..Len(e.mb) : e.mb[i].cmp # "eq" /\ ~e.mb[i].clamped THEN {"C01:mass-balance"} ELSE {})
   \cup (IF "end" \in DOMAIN e /\ e.end.tend # "eq" /\ ~("stopped" \in DOMAIN e.end /\ e.end.stopped) THEN {"C03:ends-at-requested-time"} ELSE {})
   \cup UNION {PhaseClauses(e.ph[p]) : p \in 1..Len(e.ph)}
